@@ -45,7 +45,8 @@ def explain(line):
     for a in dec:
         d = pre[a] - post[a]
         if a == line["signer"]:
-            if not line["run"] and d > line["fee"] + line["sends"] + line["maxdep"]:
+            locked = max(0, post["vdep"] - pre["vdep"]) + max(0, post["mdep"] - pre["mdep"])
+            if not line["run"] and (d > line["fee"] + line["sends"] + locked or locked > line["maxdep"]):
                 bad.append(a + "-beyond-signed-envelope")
         elif a == "vault":
             if not (line["spends"] > 0 or line["deleg"] > 0):
@@ -70,7 +71,7 @@ def validate(ctx, lines, pid="C08"):
     ntx = sum(1 for x in lines if x.get("act") == "Tx")
     if ok:
         return ntx, []
-    m = re.search(r'<<"BAD-LINES", <<([0-9, ]*)>>', r.out)
+    m = re.search(r'<<\s*"BAD-LINES",\s*<<([0-9,\s]*)>>', r.out)
     bad = [int(x) for x in m.group(1).split(",") if x.strip()] if m else []
     if not bad:
         raise vlib.Inconclusive("TRACE", "trace not consumed (stopped at line %s):\n%s" % (k, r.out[-1500:]))
@@ -144,6 +145,8 @@ def run(ctx):
         ctx.sample({k: x[k] for k in ("label", "cls", "signer", "fee", "sends", "maxdep", "ok", "kind", "spends", "deleg", "storV")} |
                    {"delta": {a: x["post"][a] - x["pre"][a] for a in TRACKED if x["post"][a] != x["pre"][a]}}, limit=4)
     missing = [k for k, v in cover.items() if v == 0]
+    if rejected:
+        return      # violations were reported: the coverage floors below describe a healthy run only
     if missing:
         raise vlib.Inconclusive("VACUOUS", "no recorded transaction exercised: %s" % missing)
     if len(attacks) < 40 or blocked < 40:
